@@ -99,7 +99,7 @@ def analyse_frame_fn(fn, duo, expect_unit_return=None):
         if re.search(r"JournaledState::create_account_checkpoint$", callee):
             cac_locals[dest.strip()] = b
         if dest and dest.strip() == "_0":
-            if "from_residual" in raw:
+            if "from_residual" in (blk.term or ""):
                 kind[b] = KIND_ERR
             elif "closure" in raw:
                 kind[b] = KIND_RESULT
@@ -333,8 +333,11 @@ def run_reward_flag(tier, log, seed):
         sites = []
         for b in fn.blocks.values():
             c = mir.call_of(b.term or "")
-            if c and re.search(r"Handler::<.*>::mainnet(_with_spec)?(::<.*>)?$", c[1]):
+            if c and re.search(r"Handler::<.*>::(mainnet|mainnet_with_spec|optimism|optimism_with_spec)(::<.*>)?$", c[1]):
                 sites.append((b.name, c[1], mir.split_top(c[2])))
+            elif c and re.search(r"Handler::<.*>::new$", c[1]):
+                # Handler::new(cfg) has no reward parameter: it always builds with rewards on
+                sites.append((b.name, c[1], ["const true"]))
         if not sites:
             inconcl.append(f"{fname}: no call to Handler::mainnet/mainnet_with_spec found (rebuild path changed shape)")
             continue
@@ -353,6 +356,14 @@ def run_reward_flag(tier, log, seed):
             flag = "true" in model
             st, out = native.call("debug", "handler_flag", fname, "true" if flag else "false", log=log)
             m = re.match(r"before=(\w+) after=(\w+)", out) if st == "ok" else None
+            if m and m.group(1) == m.group(2) and not flag:
+                # the handle may look unchanged and still pay: run a tipping transaction after the reconfiguration
+                st2, out2 = native.call("debug", "reward_paid", fname, log=log)
+                m2 = re.search(r"coinbase_received=(\d+)", out2) if st2 == "ok" else None
+                if m2 and int(m2.group(1)) > 0:
+                    failures.append(dict(id=f"{fname}-reward-flag", reproduced=True,
+                                         description=f"Handler::{fname} with rewards off: the beneficiary is paid after the reconfiguration | native: {out2}"))
+                    continue
             desc = (f"Handler::{fname} rebuilds the handler with reward argument {val} instead of the current setting: "
                     f"a handler configured with rewards {'on' if flag else 'off'} comes back")
             if m and m.group(1) != m.group(2):
@@ -361,10 +372,62 @@ def run_reward_flag(tier, log, seed):
                 failures.append(dict(id=f"{fname}-reward-flag", reproduced=False, description=desc + f" | native: unchanged ({out})"))
             else:
                 inconcl.append(f"{fname}: native scenario failed: {st} {out}")
+    # ---- the switch itself: PostExecutionHandler::new installs the reward handle iff its flag is set (the rebuild paths read the
+    # setting back with `.is_some()`, so a handle that is always present would defeat them although each site looks fine alone)
+    cands = [f for n, fl in funcs.items() for f in fl if re.search(r"handle_types::post_execution::<impl at [^>]*>::new$", n)]
+    if len(cands) != 1:
+        inconcl.append(f"PostExecutionHandler::new: {len(cands)} MIR bodies")
+    else:
+        fn = cands[0]
+        field = None
+        for b in fn.blocks.values():
+            for s_ in b.stmts:
+                m = re.search(r"PostExecutionHandler::<.*> \{.*reward_beneficiary: (?:move|copy) (_\d+)", s_)
+                if m:
+                    field = m.group(1)
+        sw = None
+        for b in fn.blocks.values():
+            m = re.match(r"^switchInt\(copy _1\) -> \[0: (bb\d+), otherwise: (bb\d+)\]$", b.term or "")
+            if m:
+                sw = m.groups()
+        def presence(bb):
+            for s_ in fn.blocks[bb].stmts + [fn.blocks[bb].term or ""]:
+                m = re.match(r"^%s = Option::<.*>::(Some|None)" % re.escape(field or "_x"), s_)
+                if m:
+                    return "true" if m.group(1) == "Some" else "false"
+            # follow a straight line for a few blocks
+            return None
+        def presence_chain(bb):
+            for _ in range(4):
+                r_ = presence(bb)
+                if r_ is not None:
+                    return r_
+                nx = [t_ for l_, t_ in mir.successors(fn.blocks[bb].term or "") if l_ in ("return", "goto")]
+                if not nx:
+                    return "unk"
+                bb = nx[0]
+            return "unk"
+        if not field or not sw:
+            inconcl.append("PostExecutionHandler::new: reward_beneficiary field / switch on the flag not found")
+        else:
+            t0_, t1_ = presence_chain(sw[0]), presence_chain(sw[1])
+            v, model, detail = duo.check(["(declare-const flag Bool)", "(declare-const unk Bool)"], [f"(not (= (ite flag {t1_} {t0_}) flag))"], want_model_of=("flag",))
+            samples.append(f"PostExecutionHandler::new: handle present = ite(flag, {t1_}, {t0_}); must equal flag -> {v}")
+            log(f"[e3] {samples[-1]}")
+            if v == "sat":
+                st, out = native.call("debug", "reward_paid", "modify_spec_id", log=log)
+                m = re.search(r"coinbase_received=(\d+)", out) if st == "ok" else None
+                desc = "PostExecutionHandler::new does not install the reward handle exactly when asked to: the setting read back by the rebuild paths (`is_some()`) is not the configured one"
+                if m:
+                    failures.append(dict(id="post_execution-new-reward-switch", reproduced=int(m.group(1)) > 0, description=desc + f" | native (rewards off, then modify_spec_id, then a tipping transaction): {out}"))
+                else:
+                    inconcl.append(f"PostExecutionHandler::new: native scenario failed: {st} {out}")
+            elif v != "unsat":
+                inconcl.append(f"PostExecutionHandler::new: {detail}")
     q, tm = duo.queries, duo.time
     duo.close()
     res = dict(queries=q, solver_s=tm, engine="mir dataflow -> smtlib (z3 4.8.12 + cvc5 1.0)", bounds="; ".join(samples),
-               detail="the reward argument of every Handler::mainnet* call inside the three rebuild functions must equal self.post_execution.reward_beneficiary.is_some()")
+               detail="the reward argument of every Handler constructor call inside the three rebuild functions must equal self.post_execution.reward_beneficiary.is_some(), and PostExecutionHandler::new must install the handle iff its flag is set")
     if inconcl:
         res.update(status="inconclusive", reason="; ".join(inconcl)[:500])
     elif failures:
@@ -1077,8 +1140,7 @@ def run_transfer_conservation(tier, log, seed):
         if tot or sym:
             parts = [str(tot) if tot >= 0 else f"(- {-tot})"] + sym
             delta[b.name] = parts[0] if len(parts) == 1 else "(+ " + " ".join(parts) + ")"
-        c = callee_of(b.term or "")
-        if c and "from_residual" in c[3]:
+        if "from_residual" in (b.term or ""):
             tag[b.name] = 9  # database error: whole transaction aborts, not constrained
     want = [f"(declare-const w_{b} Int)" for b in set(unknown)]
     v, info = path_search(fn, duo, delta, {}, tag, lambda c, k, b: f"(and (not (= {k} 9)) (not (= {c} 0)))", want)
@@ -1260,6 +1322,160 @@ def run_inspector_balance(tier, log, seed):
     duo.close()
     res = dict(queries=q, solver_s=tm, engine="mir-cfg -> smtlib path search (z3 4.8.12 + cvc5 1.0)", bounds="; ".join(samples),
                detail="push/pop sites: Vec::<Box<CallInputs|CreateInputs|EOFCreateInputs>>::{push,pop}; unwind edges (pop().unwrap() on an empty stack) excluded")
+    if inconcl:
+        res.update(status="inconclusive", reason="; ".join(map(str, inconcl))[:500])
+    elif failures:
+        res.update(status="fail", failures=failures, reason=failures[0]["description"][:300])
+    else:
+        res.update(status="pass")
+    return res
+
+
+# ------------------------------------------------------------------------------------------------ multi-cell path search
+def path_search2(fn, duo, cells, delta, violation, edge_cond=None, consts=()):
+    """Like path_search, with several integer cells (`delta[block] = {cell: term}`) and optional Boolean conditions on edges
+    (`edge_cond[(src, label, dst)] = term` over the declared `consts`): lets two branches on the same comparison be correlated."""
+    blocks = normal_blocks(fn)
+    es = edges(fn, blocks)
+    if has_cycle(blocks, es):
+        return "inconclusive", {"reason": "CFG has a cycle"}
+    decls = [f"(declare-const on_{b} Bool)" for b in blocks]
+    for c in cells:
+        decls += [f"(declare-const {c}_{b} Int)" for b in blocks]
+    decls += list(consts)
+    evar = {e: f"e{i}" for i, e in enumerate(es)}
+    decls += [f"(declare-const {v} Bool)" for v in evar.values()]
+    asserts = ["on_bb0"] + [f"(= {c}_bb0 0)" for c in cells]
+    outs = {b: [e for e in es if e[0] == b] for b in blocks}
+    ins = {b: [e for e in es if e[2] == b] for b in blocks}
+
+    def one(vs):
+        if not vs:
+            return "false"
+        if len(vs) == 1:
+            return vs[0]
+        return "(and (or " + " ".join(vs) + ") " + " ".join(f"(not (and {vs[i]} {vs[j]}))" for i in range(len(vs)) for j in range(i + 1, len(vs))) + ")"
+
+    def out(c, b):
+        d = delta.get(b, {}).get(c)
+        return f"(+ {c}_{b} {d})" if d else f"{c}_{b}"
+    returns = [b for b in blocks if fn.blocks[b].term == "return"]
+    for b in blocks:
+        o = [evar[e] for e in outs[b]]
+        if o:
+            asserts.append(f"(=> on_{b} {one(o)})")
+            asserts.append(f"(=> (not on_{b}) (not (or {' '.join(o)} false)))")
+        for e in outs[b]:
+            eqs = " ".join(f"(= {c}_{e[2]} {out(c, b)})" for c in cells)
+            cond = (edge_cond or {}).get(e)
+            asserts.append(f"(=> {evar[e]} (and on_{e[2]} {eqs}{' ' + cond if cond else ''}))")
+        if b != "bb0":
+            asserts.append(f"(=> on_{b} {one([evar[e] for e in ins[b]])})")
+    asserts.append(one([f"on_{b}" for b in returns]))
+    asserts.append("(or " + " ".join(f"(and on_{b} {violation({c: out(c, b) for c in cells}, b)})" for b in returns) + ")")
+    v, model, detail = duo.check(decls, asserts, want_model_of=[f"on_{b}" for b in blocks])
+    info = {"blocks": len(blocks), "edges": len(es), "returns": len(returns), "solver": detail}
+    if v == "sat":
+        info["path"] = sorted([b for b in blocks if re.search(r"\(on_%s true\)" % b, model)], key=lambda x: int(x[2:]))
+    return v, info
+
+
+def is_err_return_block(fn, b):
+    c = callee_of(fn.blocks[b].term or "")
+    return bool(c and "from_residual" in c[3])
+
+
+def run_value_moves(tier, log, seed):
+    """C08 beyond `transfer`: (1) JournaledState::selfdestruct: on every path on which the destroyed account's balance is zeroed and the
+    beneficiary is a different address, the balance was credited to the beneficiary; (2) reimburse_caller credits the caller on every
+    non-error path."""
+    text = mir.dump("revm", log)
+    funcs = mir.parse_functions(text)
+    duo = smt.Duo(timeout_s=30)
+    failures, inconcl, samples = [], [], []
+    # ---- (1) selfdestruct
+    cands = [f for n, fl in funcs.items() for f in fl if re.search(r"journaled_state::<impl at [^>]*>::selfdestruct$", n)]
+    if len(cands) != 1:
+        inconcl.append(f"selfdestruct: {len(cands)} MIR bodies")
+    else:
+        fn = cands[0]
+        delta, edge_cond, errtag = {}, {}, {}
+        n_ne = 0
+        for b in fn.blocks.values():
+            d = {}
+            for s in b.stmts:
+                if re.match(r"^\(\(\(\*_\d+\)\.0: .*AccountInfo\)\.0: ruint::Uint<256, 4>\) = const ruint::Uint::<256, 4>::ZERO$", s):
+                    d["zeroed"] = "1"
+            c = callee_of(b.term or "")
+            if c and re.search(r"<Uint<256, 4> as AddAssign>::add_assign$", c[1]):
+                d["credit"] = "1"
+            if "from_residual" in (b.term or ""):
+                d["err"] = "1"
+            if d:
+                delta[b.name] = d
+            # branches on `address != target` (the same two operands every time: they are parameters that are never written)
+            if c and re.search(r"<Address as PartialEq>::(ne|eq)$", c[1]):
+                dest = c[0].strip()
+                nxt = [s_ for l_, s_ in mir.successors(b.term) if l_ == "return"]
+                if nxt:
+                    sw = re.match(r"^switchInt\(move (_\d+)\) -> \[0: (bb\d+), otherwise: (bb\d+)\]$", fn.blocks[nxt[0]].term or "")
+                    if sw and sw.group(1) == dest:
+                        is_ne = c[1].endswith("::ne")
+                        edge_cond[(nxt[0], "0", sw.group(2))] = "(not differs)" if is_ne else "differs"
+                        edge_cond[(nxt[0], "otherwise", sw.group(3))] = "differs" if is_ne else "(not differs)"
+                        n_ne += 1
+        if n_ne == 0:
+            inconcl.append("selfdestruct: no branch on address != target found")
+        else:
+            v, info = path_search2(fn, duo, ["zeroed", "credit", "err"], delta,
+                                   lambda o, b: f"(and (= {o['err']} 0) (>= {o['zeroed']} 1) differs (= {o['credit']} 0))",
+                                   edge_cond=edge_cond, consts=["(declare-const differs Bool)"])
+            samples.append(f"selfdestruct: {info.get('blocks')} blocks, {n_ne} branch(es) on address != target correlated: balance zeroed with a different beneficiary but never credited: {v}")
+            log(f"[e3] {samples[-1]}")
+            if v == "sat":
+                st, out = native.call("debug", "selfdestruct_sum", log=log)
+                desc = f"JournaledState::selfdestruct: a path zeroes the account's balance with beneficiary != account without crediting the beneficiary (path {'>'.join(info['path'][-6:])})"
+                m = re.search(r"total_before=(\d+) total_after=(\d+)", out) if st == "ok" else None
+                if m:
+                    failures.append(dict(id="selfdestruct-no-credit", reproduced=m.group(1) != m.group(2), description=desc + f" | native: {out}"))
+                else:
+                    inconcl.append(f"selfdestruct: native scenario failed: {st} {out}")
+            elif v != "unsat":
+                inconcl.append(f"selfdestruct: {info}")
+    # ---- (2) reimburse_caller
+    cands = [f for n, fl in funcs.items() for f in fl if n.endswith("post_execution::reimburse_caller") or n == "reimburse_caller"]
+    cands = [f for f in cands if "Gas" in f.sig]
+    if len(cands) != 1:
+        inconcl.append(f"reimburse_caller: {len(cands)} MIR bodies")
+    else:
+        fn = cands[0]
+        delta = {}
+        for b in fn.blocks.values():
+            d = {}
+            for s in b.stmts:
+                if re.match(r"^\(\(.*AccountInfo\)\.0: ruint::Uint<256, 4>\) = (move|copy) _\d+$", s):
+                    d["credit"] = "1"
+            if "from_residual" in (b.term or ""):
+                d["err"] = "1"
+            if d:
+                delta[b.name] = d
+        v, info = path_search2(fn, duo, ["credit", "err"], delta, lambda o, b: f"(and (= {o['err']} 0) (not (= {o['credit']} 1)))")
+        samples.append(f"reimburse_caller: {info.get('blocks')} blocks, {sum(1 for d in delta.values() if 'credit' in d)} balance store(s): a non-error return without exactly one credit of the caller: {v}")
+        log(f"[e3] {samples[-1]}")
+        if v == "sat":
+            st, out = native.call("debug", "reimburse_exact_gas", log=log)
+            desc = f"reimburse_caller: a non-error path returns without crediting the caller (path {'>'.join(info['path'][-6:])})"
+            m = re.search(r"lost=(\d+)", out) if st == "ok" else None
+            if m:
+                failures.append(dict(id="reimburse-no-credit", reproduced=int(m.group(1)) > 0, description=desc + f" | native: {out}"))
+            else:
+                inconcl.append(f"reimburse_caller: native scenario failed: {st} {out}")
+        elif v != "unsat":
+            inconcl.append(f"reimburse_caller: {info}")
+    q, tm = duo.queries, duo.time
+    duo.close()
+    res = dict(queries=q, solver_s=tm, engine="mir-cfg -> smtlib path search (z3 4.8.12 + cvc5 1.0)", bounds="; ".join(samples),
+               detail="branches on `address != target` share one Boolean; zeroing = store of Uint::ZERO into an AccountInfo balance; credit = AddAssign on a U256 / store into a balance")
     if inconcl:
         res.update(status="inconclusive", reason="; ".join(map(str, inconcl))[:500])
     elif failures:
